@@ -83,6 +83,9 @@ INIT = [T(B + '_init_terminal', B + '_init_terminal!empty', variant='empty'), T(
 ALET = [T(ABD + 'let', ABD + 'let:bool', variant='constants', args={'definitions': 'dict:name->bool'}, calls={B + 'let': B + 'let:bool'}),
         T(ABD + 'let', ABD + 'let:name', variant='names', args={'definitions': 'dict:name->name'}, calls={B + 'let': B + 'let:name'})]
 
+ASUPP = [T(ABD + 'support', ABD + 'support:names', variant='names', calls={B + 'support': B + 'support!proved:names'}),
+         T(ABD + 'support', ABD + 'support:levels', variant='levels', calls={B + 'support': B + 'support!proved:levels'})]
+
 TARGETS = {
     'C01': CORE + apply_targets(['not', 'and', 'or', 'xor', 'implies', 'equiv', 'diff', 'ite']) + AOPS
     + [T(ABD + 'ite')] + aapply_targets(['~', 'and', '\\/', '#', '=>', '<->', '-', 'ite']) + ARITY,
@@ -109,7 +112,7 @@ TARGETS = {
     'C09': PLUMBING + [T(B + 'ite', B + 'ite!body'), T(B + 'var', B + 'var!body'), T(B + 'rename', B + 'rename!body'),
                        T('dd.bdd.copy_bdd', variant='two-managers'), T(ABD + 'find_or_add')] + IMAGE[2:],
     'C10': [T(B + 'is_essential'), T(B + '_support'), T(B + 'support', B + 'support!proved:names', variant='names'),
-            T(B + 'support', B + 'support!proved:levels', variant='levels')],
+            T(B + 'support', B + 'support!proved:levels', variant='levels')] + ASUPP,
     'C11': [T('dd.bdd._copy_bdd', variant='two-managers'), T('dd.bdd.copy_bdd', variant='two-managers'),
             T('dd.bdd.copy_bdd', variant='same-manager', alias={'from_bdd': 'to_bdd'}), T(B + 'copy', variant='two-managers')],
     'C12': [T(B + '_load')],
